@@ -545,12 +545,12 @@ func ruleGlobalEscape(c *Ctx, r *Report) {
 			}
 			guarded := false
 			for f := range c.factsAt(st.Block()) {
-				bo, ok := f.cond.(*ssa.BinOp)
+				x, op, ok := nilCmp(f.cond)
 				if !ok {
 					continue
 				}
-				ld, isLoad := bo.X.(*ssa.UnOp)
-				if isLoad && ld.X == ssa.Value(p) && isNilConst(bo.Y) && ((bo.Op == token.NEQ && !f.pol) || (bo.Op == token.EQL && f.pol)) {
+				ld, isLoad := x.(*ssa.UnOp)
+				if isLoad && ld.X == ssa.Value(p) && ((op == token.NEQ && !f.pol) || (op == token.EQL && f.pol)) {
 					guarded = true
 				}
 			}
@@ -601,15 +601,15 @@ func (c *Ctx) trampolineStoreGuarded(s structStore) bool {
 		return false
 	}
 	for f := range c.factsAt(s.store.Block()) {
-		bo, ok := f.cond.(*ssa.BinOp)
-		if !ok || !isNilConst(bo.Y) {
+		x, op, ok := nilCmp(f.cond)
+		if !ok {
 			continue
 		}
-		base, ok := loadsField(bo.X, "Promise", "cutParent")
+		base, ok := loadsField(x, "Promise", "cutParent")
 		if !ok || base != s.base {
 			continue
 		}
-		if (bo.Op == token.NEQ && f.pol) || (bo.Op == token.EQL && !f.pol) {
+		if (op == token.NEQ && f.pol) || (op == token.EQL && !f.pol) {
 			return true
 		}
 	}
@@ -632,13 +632,12 @@ func (c *Ctx) promiseStoreSelfGuarded(s structStore, p *ssa.Parameter, r *Report
 		recv := cs.Common().Args[0]
 		ok := false
 		for f := range c.factsAt(cs.Block()) {
-			bo, isB := f.cond.(*ssa.BinOp)
-			if !isB {
+			x, op, k, isCmp := cmpConst(f.cond)
+			if !isCmp {
 				continue
 			}
-			k, isK := constInt(bo.Y)
-			call, isCall := bo.X.(*ssa.Call)
-			if !isK || k != 0 || !isCall {
+			call, isCall := x.(*ssa.Call)
+			if k != 0 || !isCall {
 				continue
 			}
 			if b, isBuiltin := call.Call.Value.(*ssa.Builtin); !isBuiltin || b.Name() != "len" {
@@ -648,7 +647,7 @@ func (c *Ctx) promiseStoreSelfGuarded(s structStore, p *ssa.Parameter, r *Report
 			if !isF || base != recv {
 				continue
 			}
-			if (bo.Op == token.EQL && !f.pol) || (bo.Op == token.NEQ && f.pol) || (bo.Op == token.GTR && f.pol) {
+			if (op == token.EQL && !f.pol) || (op == token.NEQ && f.pol) || (op == token.GTR && f.pol) {
 				ok = true
 			}
 		}
@@ -900,4 +899,166 @@ func ruleAtomicRMW(c *Ctx, r *Report) {
 		r.bad(rule, "scan/atomics", "-", desc, "no atomic update of a package-level variable found: the shared counters are not being seen")
 	}
 	r.analysed(rule, fmt.Sprintf("%d atomic read-modify-writes, %d atomic stores on package-level variables", nadd, nstore))
+}
+
+// ---------------------------------------------------------------------------
+// R-LOCK-LEAF (C14; added after seed C14e): "any number of interpreters ... each producing exactly the answers
+// it produces when run alone".  The only state interpreters share is behind package-level locks (the atom
+// table).  While such a lock is held the holder does nothing that can block on, or call back into, another
+// party: no interface method call (an io.Writer of the host may block for as long as it likes), no call of a
+// function value, no channel operation, no call of a library function that may do one of these or takes
+// another package-level lock, and no call of a non-library function that is handed an interface with methods
+// (io.WriteString(w, ...)).  With an RWMutex one blocked reader and one waiting writer stop every other
+// interpreter at its next atom.  The region is the code reachable from the Lock/RLock call up to the matching
+// Unlock/RUnlock in the same function, or to the end of the function when the unlock is deferred.
+func ruleLockLeaf(c *Ctx, r *Report) {
+	const rule = "R-LOCK-LEAF"
+	desc := "nothing that can block or call back runs while a package-level lock is held"
+	// library functions that may block or re-enter (fixpoint over static calls)
+	may := map[*ssa.Function]string{}
+	direct := func(fn *ssa.Function) string {
+		why := ""
+		eachInstr(fn, func(in ssa.Instruction) {
+			if why != "" {
+				return
+			}
+			why = c.blockingInstr(in, nil)
+		})
+		return why
+	}
+	libs := c.LibFuncs()
+	for _, fn := range libs {
+		if w := direct(fn); w != "" {
+			may[fn] = w
+		}
+	}
+	for changed := true; changed; {
+		changed = false
+		for _, fn := range libs {
+			if may[fn] != "" {
+				continue
+			}
+			eachInstr(fn, func(in ssa.Instruction) {
+				if ci, ok := in.(ssa.CallInstruction); ok && may[fn] == "" {
+					if callee := ci.Common().StaticCallee(); callee != nil && may[callee] != "" {
+						may[fn] = "calls " + callee.Name() + ", which " + may[callee]
+						changed = true
+					}
+				}
+			})
+		}
+	}
+	n := 0
+	for _, g := range c.libGlobals() {
+		acc := c.globalAccesses(g)
+		for i := range acc {
+			l := &acc[i]
+			if l.lockOp != "Lock" && l.lockOp != "RLock" {
+				continue
+			}
+			n++
+			fn := l.fn
+			want := "Unlock"
+			if l.lockOp == "RLock" {
+				want = "RUnlock"
+			}
+			unlocks := map[ssa.Instruction]bool{}
+			for j := range acc {
+				if acc[j].fn == fn && acc[j].lockOp == want {
+					unlocks[acc[j].in] = true
+				}
+			}
+			key := fmt.Sprintf("%s/%s(%s)", fname(fn), l.lockOp, g.Name())
+			// walk the region
+			bad, where := "", ssa.Instruction(nil)
+			seen := map[*ssa.BasicBlock]bool{}
+			var walk func(b *ssa.BasicBlock, from int)
+			walk = func(b *ssa.BasicBlock, from int) {
+				for idx := from; idx < len(b.Instrs); idx++ {
+					in := b.Instrs[idx]
+					if unlocks[in] {
+						return
+					}
+					if bad == "" {
+						if w := c.blockingInstr(in, may); w != "" {
+							bad, where = w, in
+						}
+					}
+				}
+				for _, s := range b.Succs {
+					if !seen[s] {
+						seen[s] = true
+						walk(s, 0)
+					}
+				}
+			}
+			walk(l.in.Block(), instrIndex(l.in)+1)
+			if bad == "" {
+				r.ok(rule, key, c.at(l.in), desc, "the locked region contains only loads, stores, map/slice operations and calls of leaf functions", true)
+			} else {
+				r.bad(rule, key, c.at(where), desc, "while the lock is held the function "+bad+": every other interpreter stops at its next access to "+g.Name()+" for as long as that takes")
+			}
+		}
+	}
+	if n == 0 {
+		r.undecided(rule, "scan/locks", "-", desc, "no Lock/RLock of a package-level mutex found")
+	}
+}
+
+// blockingInstr: why instruction `in` can block or call back into foreign code ("" if it cannot).  may: library
+// functions already known to (nil while that set is being computed: static library callees are then ignored).
+func (c *Ctx) blockingInstr(in ssa.Instruction, may map[*ssa.Function]string) string {
+	switch x := in.(type) {
+	case *ssa.Send:
+		return "sends on a channel"
+	case *ssa.Select:
+		if x.Blocking {
+			return "waits in a select"
+		}
+	case *ssa.UnOp:
+		if x.Op == token.ARROW {
+			return "receives from a channel"
+		}
+	case *ssa.Defer:
+		return "" // runs at function exit
+	case *ssa.Go:
+		return ""
+	case ssa.CallInstruction:
+		cc := x.Common()
+		if cc.IsInvoke() {
+			return "calls the interface method " + cc.Method.Name() + " (dynamic dispatch: the callee may be host code that blocks)"
+		}
+		if _, ok := cc.Value.(*ssa.Builtin); ok {
+			return ""
+		}
+		callee := cc.StaticCallee()
+		if callee == nil {
+			return "calls a function value"
+		}
+		if isSyncLockCall(cc) != "" {
+			return ""
+		}
+		if c.isLibPkg(funcPkg(callee)) {
+			if may != nil && may[callee] != "" {
+				return "calls " + callee.Name() + ", which " + may[callee]
+			}
+			return ""
+		}
+		// a non-library function that is handed an interface with methods may call them
+		for _, a := range cc.Args {
+			if it, ok := a.Type().Underlying().(*types.Interface); ok && it.NumMethods() > 0 && !isErrorType(a.Type()) {
+				return "hands an interface value (" + a.Type().String() + ") to " + calleeName(cc) + ", which may call its methods"
+			}
+		}
+		if callee.Pkg != nil {
+			switch callee.Pkg.Pkg.Path() + "." + callee.Name() {
+			case "time.Sleep", "runtime.Gosched":
+				return "calls " + callee.Name()
+			}
+			if callee.Pkg.Pkg.Path() == "sync" && (callee.Name() == "Wait" || callee.Name() == "Lock" || callee.Name() == "RLock") {
+				return "takes another lock (" + calleeName(cc) + ")"
+			}
+		}
+	}
+	return ""
 }
